@@ -72,7 +72,10 @@ RULE = ("(a) exhaustive: every string of length <=3 (quick) / <=4 (thorough) ove
         "TomlConfigParser.parse on ~400 generated TOML documents (tool/pydoctor tables present, empty, scalar, shadowed); the real "
         "CompositeConfigParser over stub parsers for every parser list x outcome x 18 stream names (504 cases); "
         "Options.from_namespace (make-html default, view-source template for 17 bases x 3 explicit templates, verbosity, sidebar "
-        "depths, sourcepath order); multi-file merges now include an explicit --config file. The corpus also holds: one-item-per-line "
+        "depths, sourcepath order); multi-file merges now include an explicit --config file. (f) first on every run and independent "
+        "of the model's option table: every config key the real parser accepts (each long option string of each action, with and "
+        "without --, generated negative spellings included) x true/false/count/valid value x the three files against the command "
+        "line that spells the same option string. The corpus also holds: one-item-per-line "
         "lists for the five repeatable options with each of VT FF FS GS RS NEL U+2028 U+2029 in the middle of an item in setup.cfg "
         "and pydoctor.ini (80 files; CR and the same characters are in the value-level INI stream), the reviewed edge cases as open "
         "findings (clustered -vv/-vq, the value `--`, bad count/flag values, key case, TOML boolean on a string option) and as "
@@ -87,8 +90,8 @@ ASSUMPTIONS = [
     "the INI pipeline has no interpolation step (IniConfigParser builds ConfigParser(interpolation=None) since /repo commit "
     "d27392d); the pre-fix pipeline is kept in the model as iniValueOld with machine-checked historical counterexamples",
     "Lean `Char` has no lone surrogates; such strings cannot be written to a UTF-8 config file either",
-    "every action of the live parser that can be set from a file has nargs None or 0 (checked at run time), so the "
-    "`value == '' and action.nargs` branch of configargparse is not modelled",
+    "every action of the live parser that can be set from a file has nargs None or 0 and one of the modelled kinds; an action "
+    "outside that is reported as a broken correspondence (ctx.broken) and the direct oracles search for a failing input",
     "the option table satisfies FlagsDisjoint / KeysDisjoint / NoSepFlag (argparse refuses conflicting option strings); "
     "checked on the live parser at run time",
     "triple-quoted forms are written to INI files only when every line of the string survives configparser's "
@@ -809,7 +812,18 @@ TRUE_WORDS = ("true", "yes", "on", "1")
 FALSE_WORDS = ("false", "no", "off", "0")
 
 
+UNCOVERED: List[str] = []     # what of the live option table the model cannot carry: a broken correspondence, reported by run()
+
+
+def _uncovered(msg: str) -> None:
+    if msg not in UNCOVERED:
+        UNCOVERED.append(msg)
+
+
 def live_table() -> List[Dict[str, Any]]:
+    """the live option table in the model's terms.  An action the model has no kind for is NOT an infrastructure problem: it
+    is recorded as a broken correspondence (run() puts it into ctx.broken) and carried as the nearest kind, so that every
+    stream still runs and the direct oracles (stream_every_option_string first of all) look for a failing input."""
     from pydoctor.options import get_parser
     p = get_parser()
     table = []
@@ -818,7 +832,7 @@ def live_table() -> List[Dict[str, Any]]:
         if not keys or isinstance(a, (argparse._HelpAction, argparse._VersionAction)) or getattr(a, "is_config_file_arg", False):
             continue
         if a.nargs not in (None, 0):
-            raise Infra(f"option {a.option_strings} has nargs={a.nargs!r}: outside the model's assumptions")
+            _uncovered(f"option table: {a.option_strings} has nargs={a.nargs!r}, outside the model's assumptions")
         if isinstance(a, argparse._AppendAction):
             kind = "append"
         elif isinstance(a, argparse._CountAction):
@@ -828,14 +842,15 @@ def live_table() -> List[Dict[str, Any]]:
         elif isinstance(a, argparse._StoreAction):
             kind = "store"
         else:
-            raise Infra(f"option {a.option_strings}: action {type(a).__name__} is not covered by the model")
+            _uncovered(f"option table: {a.option_strings}: action {type(a).__name__} is not covered by the model")
+            kind = "flag" if a.nargs == 0 else "store"
         table.append({"flags": list(a.option_strings), "kind": kind, "dest": a.dest, "default": a.default, "type": a.type,
                       "choices": list(a.choices) if a.choices else None, "key": keys[0], "keys": list(keys), "const": getattr(a, "const", None),
                       "action": a})
     flags = [f for o in table for f in o["flags"]]
     keys = [k for o in table for k in p.get_possible_config_keys(o["action"])]
     if len(set(flags)) != len(flags) or len(set(keys)) != len(keys) or "--" in flags:
-        raise Infra("live option table violates FlagsDisjoint/KeysDisjoint/NoSepFlag")
+        _uncovered("option table: the live table violates FlagsDisjoint/KeysDisjoint/NoSepFlag")
     return table
 
 
@@ -1855,14 +1870,99 @@ def stream_corpus(ctx: Ctx, sc: Scratch) -> None:
                      f"{what}: differs from the command line{diff_opts(a, b)}")
 
 
+def stream_every_option_string(ctx: Ctx, sc: Scratch) -> None:
+    """direct oracle that does not depend on the model's option table: for EVERY config key the real parser accepts (every
+    long option string of every action, with and without its `--`: negative spellings that BooleanOptionalAction-like
+    actions generate included) in the three file formats, Options from `<key> = true / false / <value>` must equal Options
+    from the command line that spells the same option string; every option string (short ones too) must mean the same as
+    what its action's other strings mean when they are documented as aliases of the same switch."""
+    from pydoctor.options import get_parser
+    p = get_parser()
+    n_keys = n_cases = 0
+    for a in p._actions:
+        if isinstance(a, (argparse._HelpAction, argparse._VersionAction)) or getattr(a, "is_config_file_arg", False) or not a.option_strings:
+            continue
+        keys = list(p.get_possible_config_keys(a))
+        valueless = a.nargs == 0
+        if valueless:
+            cases: List[Tuple[str, Optional[str]]] = [("true", None), ("false", None)]
+            if isinstance(a, argparse._CountAction):
+                cases.append(("2", None))
+        else:
+            if a.choices:
+                vals = [str(c) for c in list(a.choices)[:2]]
+            elif a.type is int:
+                vals = ["3"]
+            elif a.option_strings[0] in CLASSES:
+                vals = [CLASSES[a.option_strings[0]][0]]
+            elif a.option_strings[0] == "--privacy":
+                vals = ["PUBLIC:a.b"]
+            elif a.option_strings[0] == "--intersphinx-cache-max-age":
+                vals = ["2d"]
+            else:
+                vals = ["sub/x"]
+            cases = [(v, v) for v in vals]
+        for key in keys:
+            # the option string this key stands for (`xxx` and `--xxx` both stand for `--xxx`)
+            opt = key if key.startswith("--") else "--" + key
+            if opt not in a.option_strings:
+                ctx.fail("config-key:no-such-option-string", {"key": key, "option_strings": a.option_strings},
+                         f"config key {key!r} is accepted for {a.option_strings} but {opt!r} is not one of its option strings")
+                continue
+            n_keys += 1
+            for text_val, cli_val in cases:
+                if valueless:
+                    low = text_val.lower()
+                    cli = [opt] if low == "true" else [] if low == "false" else [opt] * int(text_val)
+                else:
+                    cli = [f"{opt}={cli_val}"]
+                sc.clear()
+                rc = sc.run(cli)
+                for fname, header, fmt in FILES:
+                    if valueless:
+                        fv = text_val if (fmt != "toml" or text_val in ("true", "false") or text_val.isdigit()) else toml_basic(text_val)
+                    elif isinstance(a, argparse._AppendAction):
+                        fv = "[" + (toml_basic(text_val) if fmt == "toml" else py_quote("1d", text_val)) + "]"
+                    else:
+                        fv = text_val if (fmt == "toml" and a.type is int) else toml_basic(text_val) if fmt == "toml" else text_val
+                    text = f"{header}\n{toml_key(key) if fmt == 'toml' else key} = {fv}\n"
+                    sc.clear()
+                    sc.write(fname, text)
+                    rf = sc.run([])
+                    n_cases += 1
+                    ctx.case(f"every-option-string {fname} {key} = {text_val}", True,
+                             {"file": fname, "text": text, "cli": cli, "outcome": short(rf)} if len(ctx.samples) < 6 and key.startswith("no-") else None)
+                    ctx.count("every-option-string:" + type(a).__name__)
+                    if outcome_key(rf) != outcome_key(rc):
+                        ctx.fail(f"option-string:file-ne-cli:{'flag' if valueless else 'valued'}",
+                                 {"mode": "eq", "file": fname, "text": text, "cli": cli, "key": key, "action": type(a).__name__},
+                                 f"{fname} {text!r} -> {short(rf)}{diff_opts(rf, rc)}; the command line {cli} -> {short(rc)} "
+                                 f"(config key {key!r} of {type(a).__name__} {a.option_strings})")
+        sc.clear()
+        # every option string of a value-less action against the first one, unless it is a generated negative spelling
+        # (those must mean the opposite: checked against the empty command line's default being restored)
+        if valueless and not isinstance(a, argparse._CountAction):
+            base = sc.run([a.option_strings[0]])
+            for s_ in a.option_strings[1:]:
+                r = sc.run([s_])
+                ctx.count("every-option-string:alias")
+                neg = s_.startswith("--no-") and ("--" + s_[5:]) in a.option_strings
+                if not neg and outcome_key(r) != outcome_key(base):
+                    ctx.fail("option-string:alias-differs", {"mode": "eq", "file": "setup.cfg", "text": "[tool:pydoctor]\n", "cli": [s_]},
+                             f"{s_} and {a.option_strings[0]} are option strings of one action but give different Options{diff_opts(r, base)}")
+    ctx.extra["every_option_string"] = {"config_keys": n_keys, "file_vs_command_line_cases": n_cases}
+
+
 # ------------------------------------------------------------------ run / replay
 
 def run(ctx: Ctx) -> None:
     with warnings.catch_warnings():
         warnings.simplefilter("ignore", SyntaxWarning)
         warnings.simplefilter("ignore", DeprecationWarning)
+        del UNCOVERED[:]
         sc = Scratch()
         try:
+            stream_every_option_string(ctx, sc)   # needs nothing from the model: every key the real parser accepts
             stream_corpus(ctx, sc)            # recorded findings and seeded shapes first, whatever the seed
         finally:
             sc.close()
@@ -1879,6 +1979,9 @@ def run(ctx: Ctx) -> None:
             stream_unquoted_ini(ctx, sc)
         finally:
             sc.close()
+    for msg in UNCOVERED:                     # the translator could not carry the live table: broken correspondence
+        if msg not in ctx.broken:
+            ctx.broken.append(msg)
     ctx.exhaustive = True
     ctx.extra["partial_theorems"] = PARTIAL
 
